@@ -332,10 +332,10 @@ func RegisterTLD(name, email, refresh, retry, expire, ttl)
 module records
 props C12 C18
 use nns names
+use nns state
 dialect neovm
 
 // C12: the record store. Key layout 0x22 ++ ripemd160(token) ++ ripemd160(name) ++ type ++ id.
-ufun tokenOf(s Store, n Bytes) Bytes
 pure rprefix(t Bytes, n Bytes, ty Int) Bytes = "\x22" ++ ripemd160(t) ++ ripemd160(n) ++ byte(ty)
 pure rkey(t Bytes, n Bytes, ty Int, id Int) Bytes = rprefix(t, n, ty) ++ byte(id)
 pure skey_(t Bytes) Bytes = rkey(t, t, 6, 0)
@@ -343,19 +343,6 @@ pure skey_(t Bytes) Bytes = rkey(t, t, 6, 0)
 // C18: record data accepted per type: A = 1, CNAME = 5, TXT = 16, AAAA = 28 (predicates of module names)
 pure recordOK(typ Int, data Bytes) Bool = (typ == 1 ==> ipv4(data)) && (typ == 5 ==> validName(data))
      && (typ == 16 ==> len(data) <= 255) && (typ == 28 ==> ipv6(data))
-
-func tokenIDFromName(ctx, name) (r)
-  trusted
-  pure
-  ensures r == tokenOf(store, name) && !isnil(r)
-
-func getFragmentedNameState(ctx, tokenID, fragments) (r)
-  trusted
-  pure
-
-func (n NameState) checkAdmin()
-  trusted
-  pure
 
 func checkRecord(ctx, name, typ, data) (r)
   pure
@@ -396,7 +383,111 @@ func AddRecord(name, typ, data)
     invariant forall j Int {$it.key(j)} :: 0 <= j && j < $it.pos ==>
         !(deser_RecordState(store.get($it.key(j))).Name == name && deser_RecordState(store.get($it.key(j))).Type == typ && deser_RecordState(store.get($it.key(j))).Data == data)
 
+// ---- reading and deleting ----------------------------------------------------------------------------------------
+// records of (token, name) are walked in key order: by type byte, then by index. Schema of the store (established by
+// storeRecord, the only writer): the record under rkey(t, n, ty, id) is RecordState{n, ty, data, id}.
+pure aprefix(t Bytes, n Bytes) Bytes = "\x22" ++ ripemd160(t) ++ ripemd160(n)
+pure recAtP(s Store, p Bytes, j Int) RecordState = deser_RecordState(s.get(skey(s, p, j)))
+pred typed(s Store, p Bytes, ty Int) = forall j Int {skey(s, p, j)} :: 0 <= j && j < cnt(s, p) ==> recAtP(s, p, j).Type == ty
+
+func getRecordsByType(ctx, tokenId, name, typ) (r)
+  pure
+  requires typed(store, rprefix(tokenId, name, typ), typ)
+  ensures [C12] len(r) == cnt(store, rprefix(tokenId, name, typ)) && !isnil(r)
+  ensures [C12] forall j Int {r[j]} :: 0 <= j && j < len(r) ==> r[j] == recAtP(store, rprefix(tokenId, name, typ), j).Data
+  loop 0
+    invariant len(result) == $it.pos && !isnil(result)
+    invariant forall j Int {result[j]} :: 0 <= j && j < $it.pos ==> result[j] == recAtP(store, rprefix(tokenId, name, typ), j).Data
+
+// getRecords returns the data of all records of (name, type) in index order, only while the name that holds them is unexpired
+func GetRecords(name, typ) (r)
+  pure
+  requires [Pre] typed(store, rprefix(tokenOf(store, name), name, typ), typ)
+  ensures [C12] len(split(name, ".")) > 1
+  ensures [C12] len(r) == cnt(store, rprefix(tokenOf(store, name), name, typ))
+  ensures [C12] forall j Int {r[j]} :: 0 <= j && j < len(r) ==> r[j] == recAtP(store, rprefix(tokenOf(store, name), name, typ), j).Data
+  ensures [C12] store.has(nkey(tokenOf(store, name))) && now < rec(store, tokenOf(store, name)).Expiration
+
+// deleteRecords empties exactly one type (never SOA = 6) of one name and refreshes the SOA record of the token
+func DeleteRecords(name, typ)
+  ensures [C12] typ != 6
+  ensures [C12] forall k Bytes {store.opt(k)} :: prefix(rprefix(tokenOf(old(store), name), name, typ), k) && k != skey_(tokenOf(old(store), name)) ==> !store.has(k)
+  ensures [C12] forall k Bytes {store.opt(k)} :: !prefix(rprefix(tokenOf(old(store), name), name, typ), k) && k != skey_(tokenOf(old(store), name)) ==> store.opt(k) == old(store).opt(k)
+  ensures [C12] store.has(nkey(tokenOf(old(store), name))) && now < rec(old(store), tokenOf(old(store), name)).Expiration
+  loop 0
+    invariant forall j Int {$it.key(j)} :: 0 <= j && j < $it.pos ==> !store.has($it.key(j))
+    invariant forall k Bytes {store.opt(k)} :: !prefix(rprefix(tokenOf(old(store), name), name, typ), k) ==> store.opt(k) == old(store).opt(k)
+    invariant forall k Bytes {store.opt(k)} :: store.has(k) ==> store.opt(k) == old(store).opt(k)
+    invariant notifs == old(notifs)
+
+// getAllRecords walks every record of the name (all types) stored under the name that holds them, while that name is unexpired
+func GetAllRecords(name) (r)
+  ensures [C12] len(split(name, ".")) > 1 && r.prefix == aprefix(tokenOf(old(store), name), name) && r.opts == 12 && r.pos == 0 && r.store == old(store)
+  ensures [C12] store == old(store) && notifs == old(notifs)
+  ensures [C12] store.has(nkey(tokenOf(store, name))) && now < rec(store, tokenOf(store, name)).Expiration
+
+// ---- resolution ---------------------------------------------------------------------------------------------------
+// resolve(res, name, T, red) appends to res the T-records of name (in key order) and, if name has a CNAME record and
+// T is not CNAME, continues at the CNAME target with one redirect less; it faults once the budget is negative.
+// Defined by recursion on the number k of records walked: tcount = number of T-records among the first k,
+// tdata = the i-th of them, lastCname = data of the last CNAME record among them ("" if none).
+pure norm(n Bytes) Bytes = n[len(n) - 1] == 46 ? n[0 : len(n) - 1] : n
+pure P(s Store, n Bytes) Bytes = aprefix(tokenOf(s, n), n)
+ufun tcount(s Store, p Bytes, ty Int, k Int) Int
+ufun tdata(s Store, p Bytes, ty Int, k Int, i Int) Bytes
+ufun lastCname(s Store, p Bytes, k Int) Bytes
+axiom tcount0: forall s Store, p Bytes, ty Int {tcount(s, p, ty, 0)} :: tcount(s, p, ty, 0) == 0
+axiom tcountS: forall s Store, p Bytes, ty Int, k Int {tcount(s, p, ty, k + 1)} :: k >= 0 ==> tcount(s, p, ty, k + 1) == tcount(s, p, ty, k) + (recAtP(s, p, k).Type == ty ? 1 : 0)
+axiom tdataS:  forall s Store, p Bytes, ty Int, k Int, i Int {tdata(s, p, ty, k + 1, i)} :: k >= 0 && 0 <= i && i < tcount(s, p, ty, k + 1)
+                 ==> tdata(s, p, ty, k + 1, i) == (i < tcount(s, p, ty, k) ? tdata(s, p, ty, k, i) : recAtP(s, p, k).Data)
+axiom lastCname0: forall s Store, p Bytes {lastCname(s, p, 0)} :: lastCname(s, p, 0) == ""
+axiom lastCnameS: forall s Store, p Bytes, k Int {lastCname(s, p, k + 1)} :: k >= 0 ==> lastCname(s, p, k + 1) == (recAtP(s, p, k).Type == 5 ? recAtP(s, p, k).Data : lastCname(s, p, k))
+pure cnameOf(s Store, n Bytes) Bytes = lastCname(s, P(s, n), cnt(s, P(s, n)))
+// the CNAME links starting at n: c1 = target of n, c2 = target of c1, c3 = target of c2 ("" where there is none).
+// resolve(name, T) starts with a budget of two redirects: chains of three and more links fail.
+pure c1(s Store, n Bytes) Bytes = cnameOf(s, norm(n))
+pure c2(s Store, n Bytes) Bytes = c1(s, c1(s, n))
+pure c3(s Store, n Bytes) Bytes = c1(s, c2(s, n))
+
+func resolve(ctx, res, name, typ, redirect) (r)
+  requires !isnil(res) && len(res) >= 0
+  ensures [C12] redirect >= 0 && len(name) > 0
+  ensures [C12] typ != 5 && c1(store, name) != "" ==> redirect >= 1
+  ensures [C12] typ != 5 && c1(store, name) != "" && c2(store, name) != "" ==> redirect >= 2
+  ensures [C12] typ != 5 && c1(store, name) != "" && c2(store, name) != "" && c3(store, name) != "" ==> redirect >= 3
+  ensures [C12] store == old(store) && notifs == old(notifs)
+  ensures [C12] len(r) >= len(res)
+  // the result extends res by the T-records of the name itself, in order ...
+  ensures [C12] len(r) >= len(res) + tcount(store, P(store, norm(name)), typ, cnt(store, P(store, norm(name)))) && !isnil(r)
+  ensures [C12] forall j Int {r[j]} :: 0 <= j && j < len(res) ==> r[j] == res[j]
+  ensures [C12] forall i Int {r[len(res) + i]} :: 0 <= i && i < tcount(store, P(store, norm(name)), typ, cnt(store, P(store, norm(name))))
+        ==> r[len(res) + i] == tdata(store, P(store, norm(name)), typ, cnt(store, P(store, norm(name))), i)
+  // ... and by nothing else unless a CNAME record redirects
+  ensures [C12] cnameOf(store, norm(name)) == "" || typ == 5 ==> len(r) == len(res) + tcount(store, P(store, norm(name)), typ, cnt(store, P(store, norm(name))))
+  loop 0
+    invariant store == old(store) && notifs == old(notifs)
+    invariant !isnil(cur(res))
+    invariant cur(name) == norm(name)
+    invariant len(cur(res)) == len(res) + tcount(store, P(store, norm(name)), typ, $it.pos)
+    invariant 0 <= tcount(store, P(store, norm(name)), typ, $it.pos)
+    invariant forall j Int {cur(res)[j]} :: 0 <= j && j < len(res) ==> cur(res)[j] == res[j]
+    invariant forall i Int {cur(res)[len(res) + i]} :: 0 <= i && i < tcount(store, P(store, norm(name)), typ, $it.pos) ==> cur(res)[len(res) + i] == tdata(store, P(store, norm(name)), typ, $it.pos, i)
+    invariant cname == lastCname(store, P(store, norm(name)), $it.pos)
+
+// resolve(name, T): the name must have at least two labels; budget of two redirects
+func Resolve(name, typ) (r)
+  ensures [C12] len(split(name, ".")) > 1
+  // a chain of three or more CNAME links makes the call fail
+  ensures [C12] typ != 5 ==> c1(store, name) == "" || c2(store, name) == "" || c3(store, name) == ""
+  ensures [C12] store == old(store) && notifs == old(notifs)
+  ensures [C12] len(r) >= tcount(store, P(store, norm(name)), typ, cnt(store, P(store, norm(name))))
+  ensures [C12] forall i Int {r[i]} :: 0 <= i && i < tcount(store, P(store, norm(name)), typ, cnt(store, P(store, norm(name)))) ==> r[i] == tdata(store, P(store, norm(name)), typ, cnt(store, P(store, norm(name))), i)
+  ensures [C12] cnameOf(store, norm(name)) == "" || typ == 5 ==> len(r) == tcount(store, P(store, norm(name)), typ, cnt(store, P(store, norm(name))))
+
 func SetRecord(name, typ, id, data)
+  // every index 0..15 of an existing record can be replaced (documented successes stay reachable)
+  cover [C12] id == 15 && typ == 16
+  cover [C12] id == 0 && typ == 1
   ensures [C18] recordOK(typ, data)
   // replaces exactly the record at that index, which must exist
   ensures [C12] old(store).has(rkey(tokenOf(old(store), name), name, typ, id))
@@ -405,8 +496,8 @@ func SetRecord(name, typ, id, data)
 @*/
 
 /*@
-module admin
-props C11
+module state
+props C11 C12
 dialect neovm
 
 // C11: who may change a name. adminOK(n) is the rule of the property statement read on a stored record n:
@@ -451,6 +542,14 @@ func tokenIDFromName(ctx, name) (r)
   trusted
   pure
   ensures r == tokenOf(store, name) && !isnil(r)
+@*/
+
+/*@
+module admin
+props C11
+use nns state
+dialect neovm
+
 
 func checkIPv4(data) (r)
   trusted
